@@ -775,18 +775,21 @@ fn get_where_filters(params: &EntityParams, prepared_query: &mut SingleQuery, t:
                                         v, operation, &value
                                     ));
                                 }
+                                //a text can contain a quote: it is bound, not written in the query
                                 ParamValue::String(v) => {
                                     tab(&mut q, t + 1);
+                                    let default = prepared_query.add_param(String::from(v), true);
                                     q.push_str(&format!(
-                                        "WHEN '{}' {} {} THEN ",
-                                        v, operation, &value
+                                        "WHEN {} {} {} THEN ",
+                                        default, operation, &value
                                     ));
                                 }
                                 ParamValue::Binary(v) => {
                                     tab(&mut q, t + 1);
+                                    let default = prepared_query.add_param(String::from(v), true);
                                     q.push_str(&format!(
-                                        "WHEN '{}' {} {} THEN ",
-                                        v, operation, &value
+                                        "WHEN {} {} {} THEN ",
+                                        default, operation, &value
                                     ));
                                 }
                                 _ => unreachable!(),
